@@ -75,6 +75,8 @@ type Sched struct {
 	Events   []Event
 	Trace    []string
 	KeepTrace bool
+	Adopt     bool // goroutines started by instrumented code on unmanaged goroutines become daemon threads
+	Quiesce   bool // keep scheduling daemon threads after the last non-daemon thread finished, until none is enabled
 }
 
 // Event is a harness observation stamped with logical time.
@@ -89,6 +91,7 @@ var (
 	regMu sync.RWMutex
 	reg   = map[uint64]*Thread{}
 	nManaged atomic.Int32
+	curSched atomic.Pointer[Sched] // execution under construction / running (one at a time per process)
 )
 
 func gid() uint64 {
@@ -138,8 +141,13 @@ func hashStr(x string) uint64 {
 
 // NewSched prepares an execution that replays prefix and then takes default choices.
 func NewSched(prefix []int, horizon int) *Sched {
-	return &Sched{prefix: prefix, last: -1, Horizon: horizon, digest: 14695981039346656037}
+	s := &Sched{prefix: prefix, last: -1, Horizon: horizon, digest: 14695981039346656037}
+	curSched.Store(s)
+	return s
 }
+
+// Done detaches the execution (goroutines started by unmanaged code are plain goroutines again).
+func (s *Sched) Done() { curSched.CompareAndSwap(s, nil) }
 
 // Digest summarises every quiescent state seen so far (parked sets, locations, events).
 func (s *Sched) Digest() uint64 { return s.digest }
@@ -181,6 +189,12 @@ func WaitPoint(loc string, en func() bool) bool {
 func Go(loc string, fn func()) {
 	t := Cur()
 	if t == nil {
+		// instrumented code running on the scenario's root goroutine (object construction in Build):
+		// its goroutines belong to the execution
+		if s := curSched.Load(); s != nil && !s.free.Load() && s.Adopt {
+			s.spawn(loc, true, fn)
+			return
+		}
 		go fn()
 		return
 	}
@@ -284,7 +298,7 @@ func (s *Sched) Run() {
 			}
 			s.mix(uint64(t.ID)<<32 ^ uint64(st)<<24 ^ hashStr(t.loc))
 		}
-		if done {
+		if done && (!s.Quiesce || len(en) == 0) {
 			return
 		}
 		if len(en) == 0 {
@@ -317,6 +331,27 @@ func (s *Sched) Run() {
 		s.Steps++
 		t.state.Store(int32(stRunning))
 		t.resume <- struct{}{}
+	}
+}
+
+// Settle runs the threads that exist so far (normally adopted background loops of freshly built
+// objects) with the default policy and without recording decision points, until none is enabled.
+// Harnesses call it from Build to model "the object is fully started" before the scenario threads exist.
+func (s *Sched) Settle() {
+	for i := 0; i < s.Horizon; i++ {
+		synctest.Wait()
+		var pick *Thread
+		for _, t := range s.Threads() {
+			if tstate(t.state.Load()) == stParked && (t.enabled == nil || t.enabled()) {
+				pick = t
+				break
+			}
+		}
+		if pick == nil {
+			return
+		}
+		pick.state.Store(int32(stRunning))
+		pick.resume <- struct{}{}
 	}
 }
 
